@@ -593,7 +593,15 @@ func (h *Host) blob(e *Entry) *Answer {
 		if rg := e.Header.Get("Range"); rg != "" && strings.HasPrefix(rg, "bytes=") {
 			sp := strings.SplitN(strings.TrimPrefix(rg, "bytes="), "-", 2)
 			start, err := strconv.ParseInt(sp[0], 10, 64)
-			if err == nil && start >= 0 && start <= int64(len(b)) && len(sp) == 2 && sp[1] == "" {
+			endOK := len(sp) == 2 && sp[1] == ""
+			if len(sp) == 2 && sp[1] != "" {
+				// a last-byte-pos at or beyond the end is clamped (RFC 9110 14.1.2); the model only
+				// serves ranges that run to the end of the blob
+				if e2, err2 := strconv.ParseInt(sp[1], 10, 64); err2 == nil && e2 >= int64(len(b))-1 {
+					endOK = true
+				}
+			}
+			if err == nil && start >= 0 && start <= int64(len(b)) && endOK {
 				if start == int64(len(b)) {
 					a = st(416, "RANGE_INVALID")
 					a.Header.Set("Content-Range", fmt.Sprintf("bytes */%d", len(b)))
